@@ -3,9 +3,12 @@ C07 — Bytecode files round-trip exactly and corrupted files are rejected.
 Model: `Model/Crc.lean` (CRC-32 register, `verify_crc_trailer_seek`),
 `Model/Bytecode.lean` (instruction stream codec).  Helper lemmas: `Lemmas/Crc.lean`,
 `Lemmas/Bytecode.lean`.
+`Model/Loader.lean` (header, sections, symbol table, dictionary: `load_program_from_bytes`),
+`Lemmas/Loader.lean`.
 -/
 import MechVerif.Lemmas.Crc
 import MechVerif.Lemmas.Bytecode
+import MechVerif.Lemmas.Loader
 namespace MechVerif.C07
 open MechVerif.Crc MechVerif.Bytecode
 
@@ -94,6 +97,109 @@ theorem C07_instr_roundtrip_statement_false : ¬ C07_instr_roundtrip_statement :
   rw [this] at h2
   simp [isTruncated] at h2
 
+/-! ### the file loader (`load_program_from_bytes`) -/
+section loader
+open MechVerif.Loader
+
+/-- The 129-byte header round-trips: what `write_to` emitted, `read_from` reads back field for
+    field, whatever bytes follow the header. -/
+theorem C07_header_roundtrip (h : Header) (hw : h.wf) (rest : List Byte) :
+    readHeader (writeHeader h ++ rest) = some h ∧ (writeHeader h).length = HEADER_SIZE :=
+  ⟨readHeader_writeHeader h hw rest, writeHeader_length h hw.1⟩
+
+/-- A file whose CRC trailer does not verify is never loaded: the loader's answer is the trailer
+    check's error.  With `C07_verify_rejects_flip` this is "a flipped bit is rejected" for the
+    loader as a whole, not only for the trailer check. -/
+theorem C07_load_rejects_unverified (valid : List Byte → Bool) (bs : List Byte) (e : VErr)
+    (h : verify bs = .error e) : ∃ e', load valid bs = .error e' :=
+  ⟨_, load_crc_error valid bs e h⟩
+
+theorem C07_load_rejects_flip (valid : List Byte → Bool) (f g : List Byte) (a b : Nat)
+    (h4 : 4 ≤ f.length) (hlen : f.length = g.length)
+    (hx : xorBits (bitsOfBytes f) (bitsOfBytes g) = List.replicate a false ++ [true] ++ List.replicate b false)
+    (hf : verifies f = true) : ∃ e', load valid g = .error e' := by
+  have hg := C07_verify_rejects_flip f g a b h4 hlen hx hf
+  unfold verifies at hg
+  cases hv : verify g with
+  | ok u => rw [hv] at hg; cases hg
+  | error e => exact C07_load_rejects_unverified valid g e hv
+
+/-- Everything a successful load returns was read from inside the file: each of the sections the
+    header names (constant blob, symbol table, instruction stream, dictionary) that is present
+    ends at or before the end of the file and is exactly the bytes at the named offset; the
+    trailer verified and the magic number is "MECH".  No header field can make the loader read or
+    allocate beyond the file. -/
+theorem C07_load_sections_inside (valid : List Byte → Bool) (bs : List Byte) (L : Loaded)
+    (h : load valid bs = .ok L) :
+    verify bs = .ok () ∧ L.header.magic = MECH ∧
+    (L.header.constBlobOff ≠ 0 ∧ L.header.constBlobLen > 0 →
+      L.header.constBlobOff + L.header.constBlobLen ≤ bs.length ∧
+      L.blob = (bs.drop L.header.constBlobOff).take L.header.constBlobLen) ∧
+    (L.header.symbolsOff ≠ 0 ∧ L.header.symbolsLen > 0 → L.header.symbolsOff + L.header.symbolsLen ≤ bs.length) ∧
+    (L.header.instrOff ≠ 0 ∧ L.header.instrLen > 0 → L.header.instrOff + L.header.instrLen ≤ bs.length) ∧
+    (L.header.dictOff ≠ 0 ∧ L.header.dictLen > 0 → L.header.dictOff + L.header.dictLen ≤ bs.length) ∧
+    (L.header.constTblOff ≠ 0 ∧ L.header.constTblLen > 0 → L.header.constTblOff + L.header.constTblLen ≤ bs.length) := by
+  obtain ⟨hv, _, hm, ⟨tbl, ht⟩, hb, ⟨sy, hs, _⟩, ⟨ib, hi, _⟩, ⟨db, hd, _⟩⟩ := load_ok_inv valid bs L h
+  refine ⟨hv, hm, ?_, ?_, ?_, ?_, ?_⟩
+  · exact (optSection_inside bs _ _ _ hb).1
+  · exact fun hc => ((optSection_inside bs _ _ _ hs).1 hc).1
+  · exact fun hc => ((optSection_inside bs _ _ _ hi).1 hc).1
+  · exact fun hc => ((optSection_inside bs _ _ _ hd).1 hc).1
+  · exact fun hc => ((optSection_inside bs _ _ _ ht).1 hc).1
+
+/-- Contrapositive, as the property puts it: a header naming a section that does not fit in the
+    file makes the load fail — it is not sliced, and nothing is returned. -/
+theorem C07_load_rejects_outside_section (valid : List Byte → Bool) (bs : List Byte) (h : Header)
+    (hh : readHeader bs = some h)
+    (hout : (h.instrOff ≠ 0 ∧ h.instrLen > 0 ∧ bs.length < h.instrOff + h.instrLen) ∨
+            (h.constBlobOff ≠ 0 ∧ h.constBlobLen > 0 ∧ bs.length < h.constBlobOff + h.constBlobLen) ∨
+            (h.symbolsOff ≠ 0 ∧ h.symbolsLen > 0 ∧ bs.length < h.symbolsOff + h.symbolsLen) ∨
+            (h.dictOff ≠ 0 ∧ h.dictLen > 0 ∧ bs.length < h.dictOff + h.dictLen) ∨
+            (h.constTblOff ≠ 0 ∧ h.constTblLen > 0 ∧ bs.length < h.constTblOff + h.constTblLen)) :
+    ∀ L, load valid bs ≠ .ok L := by
+  intro L hL
+  have inv := load_ok_inv valid bs L hL
+  have hhd : L.header = h := by have := inv.2.1; rw [hh] at this; exact (Option.some.inj this).symm
+  obtain ⟨_, _, a, b, c, d, e⟩ := C07_load_sections_inside valid bs L hL
+  rw [hhd] at a b c d e
+  rcases hout with ⟨x, y, z⟩ | ⟨x, y, z⟩ | ⟨x, y, z⟩ | ⟨x, y, z⟩ | ⟨x, y, z⟩
+  · have := c ⟨x, y⟩; omega
+  · have := (a ⟨x, y⟩).1; omega
+  · have := b ⟨x, y⟩; omega
+  · have := d ⟨x, y⟩; omega
+  · have := e ⟨x, y⟩; omega
+
+/-- The symbol table round-trips: `n` entries are written as `13 n` bytes and read back entry for
+    entry, and the entry count the loader derives from the section length (`len / 13`) is `n`. -/
+theorem C07_symbols_roundtrip (ss : List (Nat × Bool × Nat)) (hw : ∀ s ∈ ss, symWf s) :
+    readSymbols (writeSymbols ss) ((writeSymbols ss).length / 13) 0 = .ok ss := by
+  have h := readSymbols_write ss hw [] []
+  rw [writeSymbols_length, Nat.mul_div_cancel_left _ (by decide : 0 < 13)]
+  simpa using h
+
+/-- The count must be `len / 13`: with the divisor 12 the pinned commit used, a table of twelve
+    or more symbols is over-counted and the read runs off the end of the section (the load fails
+    with an I/O error on a file the compiler itself wrote).  Repaired by a `fix:` commit. -/
+theorem C07_symbol_count_div12_fails (ss : List (Nat × Bool × Nat)) (h12 : 12 ≤ ss.length) :
+    ∀ r, readSymbols (writeSymbols ss) ((writeSymbols ss).length / 12) 0 ≠ .ok r := by
+  intro r hr
+  obtain ⟨_, hb⟩ := readSymbols_needs _ _ _ _ hr
+  rw [writeSymbols_length] at hb
+  have : ss.length + 1 ≤ 13 * ss.length / 12 := by
+    rw [Nat.le_div_iff_mul_le (by decide)]; omega
+  rcases hb with hb | hb
+  · omega
+  · have h2 : 13 * (ss.length + 1) ≤ 13 * (13 * ss.length / 12) := Nat.mul_le_mul_left 13 this
+    omega
+
+/-- The dictionary loop terminates on its own: the fuel the model gives it (one turn per byte of
+    the section) is never what stops it — any larger amount gives the same result. -/
+theorem C07_dict_loop_terminates (d : List Byte) (valid : List Byte → Bool) (k : Nat) :
+    readDict d valid (d.length + k) 0 = readDict d valid d.length 0 :=
+  readDict_fuel_enough d valid k
+
+end loader
+
 /-! ### non-vacuity -/
 
 /-- "123456789" followed by its CRC-32 (0xCBF43926) little endian verifies -/
@@ -109,5 +215,15 @@ example : decodeInstrs 40 (encodeInstrs [.binOp 7 0 1 2, .ret 0, .constLoad 1 2]
   · intro i hi; simp at hi; rcases hi with h | h | h <;> subst h <;> simp [Instr.wf, U32, U64]
   · decide
   · decide
+
+section loaderExamples
+open MechVerif.Loader
+def exHeader : Header := ⟨MECH, 1, 2, 0, 3, 4, 0, 0, 0, 0, 1, 129, 24, 153, 8, 26, 161, 187, 16, 0, 0, 0⟩
+example : exHeader.wf := by unfold Header.wf exHeader MECH; decide
+example : symWf (7, true, 3) := by unfold symWf; decide
+example : readSymbols (writeSymbols [(7, true, 3), (9, false, 1)]) ((writeSymbols [(7, true, 3), (9, false, 1)]).length / 13) 0
+    = .ok [(7, true, 3), (9, false, 1)] :=
+  C07_symbols_roundtrip _ (by intro s hs; simp at hs; rcases hs with h | h <;> subst h <;> (unfold symWf; decide))
+end loaderExamples
 
 end MechVerif.C07
